@@ -184,14 +184,14 @@ Theorem populate_then_matches_full :
   forall es t, entries_valid es = true -> Forall sources_good es ->
     populate es [] (Dir []) = (t, Done) ->
     forall (scandir : path -> dirc -> dirc), (forall p l, Permutation (scandir p l) l) ->
-    forall gs gp abs,
-      eval_fsm scandir gs gp (SMatches true (cond_of (listing t [] abs))) (FsModel t abs (Rec None None) None None) = Ok true.
+    forall O abs,
+      eval_fsm scandir O (SMatches true (cond_of (listing t [] abs))) (FsModel t abs (Rec None None) None None) = Ok true.
 Proof.
-  intros es t V S E scandir HP gs gp abs.
+  intros es t V S E scandir HP O abs.
   destruct (populate_safe es [] (Dir []) V eq_refl) as [LF _]. rewrite E in LF. cbn [fst] in LF.
   assert (good (Dir [])) as G0 by (apply good_Dir; split; constructor).
   pose proof (populate_good es [] (Dir []) S G0 (Forall_nil _)) as G. rewrite E in G. cbn [fst] in G. destruct G as [W P].
-  apply (proj1 (proj2 (matchers_sound scandir HP gs gp)) _ _ (SModel t abs (Rec None None) (fun _ => Some true) nf)).
+  apply (proj1 (proj2 (matchers_sound scandir HP O)) _ _ (SModel t abs (Rec None None) (fun _ => Some true) nf)).
   - constructor; cbn; try reflexivity; intros x b Hx; injection Hx as <-; reflexivity.
   - apply listing_matches_full; assumption.
 Qed.
